@@ -2,10 +2,11 @@ import DustVerif.Model.Partition
 /-! Property C15, PARTITION part: the inline partition test of process_discovered_readers / process_discovered_writers
     (Model/Partition.lean). Theorems `C15_partition_*`:
     * both sides compute the same verdict (the test is symmetric in the two partitions);
-    * on pattern-free, non-empty lists it is exactly the DDS rule "some name in common";
-    * the empty list matches nothing but the empty list — so `[]` (the default partition) does not match `[""]` nor `["*"]`,
-      against DDS 1.4 2.2.3.13 where the empty sequence IS the partition "" (finding D20, counterexample + partial theorem);
-    * a pattern is matched against the other side's PATTERNS as if they were names, and `+` is a quantifier (finding D20). -/
+    * the empty list behaves exactly like the list `[""]` (DDS 1.4 2.2.3.13: the empty sequence IS the default partition "";
+      repaired defect D20a, regression witness on `partitionMatchOld`);
+    * on pattern-free lists — empty ones included — the verdict is exactly the DDS rule "some name in common";
+    * still open: a pattern is matched against the other side's PATTERNS as if they were names (D20b), and `+` is a regex
+      quantifier (D20c; two tests of the repository rely on it). -/
 namespace DustVerif.Partition
 
 /-! ### symmetry -/
@@ -23,25 +24,51 @@ theorem beq_list_comm (a b : List Name) : (a == b) = (b == a) := by
 /-- C15 (partition, both sides): the writer's participant evaluates `partitionMatch readerPartition publisherPartition`,
     the reader's participant `partitionMatch writerPartition subscriberPartition`: for ALL name lists the two verdicts
     are the same -/
+theorem defaultMatch_comm (a b : List Name) : defaultMatch a b = defaultMatch b a := by
+  unfold defaultMatch
+  cases (a.isEmpty && matchesDefault b) <;> cases (b.isEmpty && matchesDefault a) <;> rfl
+
 theorem C15_partition_symmetric (a b : List Name) : partitionMatch a b = partitionMatch b a := by
   unfold partitionMatch
-  rw [beq_list_comm a b, anyCommonName_comm a b]
+  rw [beq_list_comm a b, anyCommonName_comm a b, defaultMatch_comm a b]
   cases (b == a) <;> cases anyCommonName b a <;> cases anyPatternMatch a b <;> cases anyPatternMatch b a <;> rfl
 
 /-! ### the empty list -/
 
-/-- C15 (partition, empty list): the empty name list matches the empty list and NOTHING else — for all lists `b`,
-    patterns included -/
-theorem C15_partition_empty_iff (b : List Name) : partitionMatch [] b = (b == []) := by
-  unfold partitionMatch anyCommonName anyPatternMatch
-  cases b with
-  | nil => rfl
-  | cons x xs => simp [nameMatches]
+theorem globMatch_nil (n : Name) : globMatch [] n = n.isEmpty := by
+  simp [globMatch, parsePat, parseAux, matchP]
 
-/-- D20: DDS 1.4 says the empty sequence is the default partition "" and that "*" matches every partition; the code
-    matches `[""]` with `["*"]` but `[]` with neither -/
-theorem C15_partition_empty_counterexample :
-    partitionMatch [] [[]] = false ∧ partitionMatch [] ["*".toList] = false ∧ partitionMatch [[]] ["*".toList] = true := by
+theorem partitionMatch_nil_cons (x : Name) (xs : List Name) : partitionMatch [] (x :: xs) = matchesDefault (x :: xs) := by
+  simp [partitionMatch, defaultMatch, anyCommonName, anyPatternMatch, nameMatches]
+
+theorem partitionMatch_emptyName_cons (x : Name) (xs : List Name) :
+    partitionMatch [[]] (x :: xs) = matchesDefault (x :: xs) := by
+  rw [Bool.eq_iff_iff]
+  simp only [partitionMatch, defaultMatch, anyCommonName, anyPatternMatch, nameMatches, matchesDefault, globMatch_nil,
+    Bool.or_eq_true, Bool.and_eq_true, List.any_eq_true, beq_iff_eq, List.isEmpty_iff, List.contains_iff_mem,
+    List.mem_singleton, exists_eq_left, reduceCtorEq, false_and, or_false]
+  constructor
+  · rintro (((h | h) | ⟨n, hn, hm⟩) | ⟨n, hn, hm⟩)
+    · exact ⟨[], by rw [← h]; simp, Or.inl rfl⟩
+    · exact ⟨[], h, Or.inl rfl⟩
+    · exact ⟨n, hn, Or.inl hm⟩
+    · exact ⟨n, hn, Or.inr hm⟩
+  · rintro ⟨n, hn, hm | hm⟩
+    · exact Or.inl (Or.inr ⟨n, hn, hm⟩)
+    · exact Or.inr ⟨n, hn, hm⟩
+
+/-- C15 (partition, empty list = default partition): for ALL lists `b`, patterns included, the empty name list gets exactly the
+    verdict of the list `[""]` — on either side (`C15_partition_symmetric`) -/
+theorem C15_partition_empty_is_default (b : List Name) : partitionMatch [] b = partitionMatch [[]] b := by
+  cases b with
+  | nil => decide
+  | cons x xs => rw [partitionMatch_nil_cons, partitionMatch_emptyName_cons]
+
+/-- regression witness for the repaired defect D20a: before the repair `[]` matched neither `[""]` nor `["*"]` although `[""]`
+    matches `["*"]`; now it does -/
+theorem C15_partition_empty_old_counterexample :
+    partitionMatchOld [] [[]] = false ∧ partitionMatchOld [] ["*".toList] = false ∧ partitionMatchOld [[]] ["*".toList] = true ∧
+    partitionMatch [] [[]] = true ∧ partitionMatch [] ["*".toList] = true ∧ partitionMatch [] ["A".toList] = false := by
   decide
 
 /-! ### pattern-free lists -/
@@ -110,16 +137,17 @@ theorem anyPatternMatch_plain (ps ns : List Name) (h : plainList ps = true) :
 def normalise (l : List Name) : List Name := if l.isEmpty then [[]] else l
 def SpecPlainMatch (a b : List Name) : Prop := ∃ n, n ∈ normalise a ∧ n ∈ normalise b
 
-/-- C15 (partition, pattern-free lists; partial — excludes the empty list on exactly one side, finding D20): for all
-    NON-EMPTY lists of names without glob characters the verdict is the DDS rule "some name in common" -/
-theorem C15_partition_plain_partial (a b : List Name) (ha : plainList a = true) (hb : plainList b = true)
-    (hae : a ≠ []) (hbe : b ≠ []) : partitionMatch a b = true ↔ SpecPlainMatch a b := by
-  have hna : normalise a = a := by cases a <;> simp_all [normalise]
-  have hnb : normalise b = b := by cases b <;> simp_all [normalise]
-  unfold SpecPlainMatch
-  rw [hna, hnb]
+theorem partitionMatch_plain_nonempty (a b : List Name) (ha : plainList a = true) (hb : plainList b = true)
+    (hae : a ≠ []) (hbe : b ≠ []) : partitionMatch a b = true ↔ ∃ n, n ∈ a ∧ n ∈ b := by
+  have hd : defaultMatch a b = false := by
+    cases a with
+    | nil => exact absurd rfl hae
+    | cons x xs => cases b with
+      | nil => exact absurd rfl hbe
+      | cons y ys => simp [defaultMatch]
   unfold partitionMatch
-  simp only [Bool.or_eq_true, anyCommonName_iff, anyPatternMatch_plain a b ha, anyPatternMatch_plain b a hb, beq_iff_eq]
+  simp only [Bool.or_eq_true, anyCommonName_iff, anyPatternMatch_plain a b ha, anyPatternMatch_plain b a hb, beq_iff_eq, hd,
+    Bool.false_eq_true, or_false]
   constructor
   · rintro (((h | h) | h) | ⟨n, h1, h2⟩)
     · subst h
@@ -130,6 +158,30 @@ theorem C15_partition_plain_partial (a b : List Name) (ha : plainList a = true) 
     · exact h
     · exact ⟨n, h2, h1⟩
   · intro h; exact Or.inl (Or.inl (Or.inr h))
+
+/-- C15 (partition, pattern-free lists): for ALL lists of names without glob characters — the empty list on one or both sides
+    included — the verdict is the DDS rule: the two sides have a name in common, the empty sequence standing for `[""]` -/
+theorem C15_partition_plain (a b : List Name) (ha : plainList a = true) (hb : plainList b = true) :
+    partitionMatch a b = true ↔ SpecPlainMatch a b := by
+  have hp : plainList [[]] = true := by decide
+  unfold SpecPlainMatch
+  cases a with
+  | nil =>
+    cases b with
+    | nil => exact ⟨fun _ => ⟨[], by simp [normalise], by simp [normalise]⟩, fun _ => by decide⟩
+    | cons y ys =>
+      rw [C15_partition_empty_is_default]
+      have := partitionMatch_plain_nonempty [[]] (y :: ys) hp hb (by simp) (by simp)
+      simpa [normalise] using this
+  | cons x xs =>
+    cases b with
+    | nil =>
+      rw [C15_partition_symmetric, C15_partition_empty_is_default, C15_partition_symmetric]
+      have := partitionMatch_plain_nonempty (x :: xs) [[]] ha hp (by simp) (by simp)
+      simpa [normalise] using this
+    | cons y ys =>
+      have := partitionMatch_plain_nonempty (x :: xs) (y :: ys) ha hb (by simp) (by simp)
+      simpa [normalise] using this
 
 /-- the two empty lists match, as the DDS rule says (both are the partition "") -/
 theorem C15_partition_both_empty : partitionMatch [] [] = true ∧ SpecPlainMatch [] [] := by
@@ -301,7 +353,7 @@ theorem C15_partition_star_matches_all (n : Name) (h : ∀ c ∈ n, c ≠ '\n') 
 theorem C15_partition_pattern_vs_pattern_counterexample :
     partitionMatch ["A*".toList] ["A?".toList] = true ∧ partitionMatch ["A*".toList] ["B*".toList] = false := by decide
 
-/-- D20: `+` is not a glob character, but the translation emits it as the regex quantifier: the name `a+` matches `aa`
+/-- D20c (open): `+` is not a glob character, but the translation emits it as the regex quantifier: the name `a+` matches `aa`
     (and does not match the name `a+` through the pattern path — only through name equality) -/
 theorem C15_partition_plus_counterexample :
     globMatch "a+".toList "aa".toList = true ∧ globMatch "a+".toList "a+".toList = false := by decide
